@@ -203,6 +203,55 @@ func (w *c13AltWorld) check(bad func(sig, what, probe string)) (n int64) {
 	return
 }
 
+// Ranges that are not multiples of 16 bytes (the cpualt bus has no alignment rule; hardware windows such as
+// $2180-$2183 or a lone $4210 are ordinary): every address INSIDE the range must reach the reader / writer
+// attached last over it. What happens to the rest of a touched cell is not specified and not looked at.
+type c13AltOddCase struct {
+	OddBase  uint32 `json:"odd_base"`
+	OddStart uint32 `json:"odd_start"`
+	OddEnd   uint32 `json:"odd_end"`
+	Second   bool   `json:"second"` // a second, aligned attach of the other memory over the neighbouring cell first
+}
+
+func c13AltOddRun(c c13AltOddCase) (sig, what string) {
+	w := c13AltNew()
+	if c.Second {
+		w.b.AttachReader(c.OddBase, c.OddBase+0x3F, w.readers[1])
+		w.b.AttachWriter(c.OddBase, c.OddBase+0x3F, w.writers[1])
+	}
+	w.b.AttachReader(c.OddStart, c.OddEnd, w.readers[0])
+	w.b.AttachWriter(c.OddStart, c.OddEnd, w.writers[0])
+	for a := c.OddStart; a <= c.OddEnd; a++ {
+		w.log = w.log[:0]
+		var v byte
+		pn := func() (p interface{}) { defer func() { p = recover() }(); v = w.b.Read8(a); return }()
+		if pn != nil || len(w.log) != 1 || w.log[0] != (c13Access{1, a, false, 0}) || v != c13Val(1, a) {
+			return "unexplained:alt-bus-unaligned-range", fmt.Sprintf("cpualt.Bus: reader 1 attached over $%06x-$%06x: Read8($%06x) reached %v (panic %v, value $%02x)", c.OddStart, c.OddEnd, a, w.log, pn, v)
+		}
+		w.log = w.log[:0]
+		pn = func() (p interface{}) { defer func() { p = recover() }(); w.b.Write8(a, 0x3C); return }()
+		if pn != nil || len(w.log) != 1 || w.log[0] != (c13Access{1, a, true, 0x3C}) {
+			return "unexplained:alt-bus-unaligned-range", fmt.Sprintf("cpualt.Bus: writer 1 attached over $%06x-$%06x: Write8($%06x) reached %v (panic %v)", c.OddStart, c.OddEnd, a, w.log, pn)
+		}
+	}
+	return "", ""
+}
+
+func c13AltOddCases() (out []c13AltOddCase) {
+	for _, base := range []uint32{0x002180, 0x004200, 0x000000, 0xFFFFC0, 0x7EFFF0} {
+		for _, so := range []uint32{0, 1, 8, 15, 16, 17} {
+			for _, eo := range []uint32{0, 3, 14, 15, 16, 18, 31, 32, 47} {
+				if so <= eo && uint64(base)+uint64(eo) <= 0xFFFFFF {
+					for _, sec := range []bool{false, true} {
+						out = append(out, c13AltOddCase{base, base + so, base + eo, sec})
+					}
+				}
+			}
+		}
+	}
+	return
+}
+
 func c13LogEq(a, b []c13Access) bool {
 	if len(a) != len(b) {
 		return false
